@@ -64,20 +64,35 @@
 (*    Deployment written has the runtime container first, the selector     *)
 (*    and pod labels of the revision (equal to the Service's selector),    *)
 (*    the namespace, the ports / env / volumes the runtime needs; what the *)
-(*    config leaves out is defaulted, what it says is kept.  (Judged on    *)
-(*    the object the real code wrote; no counterpart in this module, the   *)
+(*    config leaves out (or says with empty templates) is defaulted, what  *)
+(*    it says is kept; the ServiceAccount gets Crossplane's pull secrets   *)
+(*    and keeps those "added by external controllers"; a provider          *)
+(*    revision's status carries the package's permission requests; a       *)
+(*    function revision's endpoint names the Service.  (Judged on the      *)
+(*    objects the real code wrote; no counterpart in this module, the      *)
 (*    template content is opaque here: Tmpls.)                             *)
 (* I8 Settles               after any of the above, fault-free reconciles  *)
 (*    (woken up as the controller's watches would) reach a fixpoint in     *)
 (*    which at most one revision - the Active one - controls a Deployment, *)
 (*    it is the one the builder names, and the prerequisites exist.        *)
+(*    THE CODE DOES NOT KEEP THIS after the user changed the Deployment    *)
+(*    name in the runtime config: the Deployment under the old name stays  *)
+(*    controlled by the revision and keeps running (formula                *)
+(*    Settled.Leftover.Renamed of the monitor).                            *)
 (*                                                                         *)
 (* NOT promised by the code (verified; dropped as formulas, counted as     *)
 (* observations by the driver): objects controlled by a stranger are       *)
 (* adopted, patched and deleted like any other - Apply is used without     *)
 (* MustBeControllableBy and Deactivate deletes by name.  Service, Secrets  *)
 (* and a ServiceAccount named by the runtime config are meant to be handed *)
-(* from revision to revision.                                              *)
+(* from revision to revision.  When applySA's read of the existing         *)
+(* ServiceAccount fails, the pull secrets other controllers added are      *)
+(* dropped by the patch (the error is ignored on purpose).  An Inactive    *)
+(* revision is reported Healthy whatever happens to Deployments.           *)
+(*                                                                         *)
+(* Not modelled: deletion of a revision (no hook runs: the garbage         *)
+(* collector removes what it controls), ControllerConfig (deprecated),     *)
+(* pull secrets / pull policy of the revision, a missing runtime config.   *)
 (***************************************************************************)
 EXTENDS Integers, Sequences, FiniteSets, TLC
 
